@@ -38,6 +38,9 @@ impl StateMachine<'_> {
     //@before <<<self.painter.output_buffer.push('\n');>>>| assert(self.painter.output_buffer@ == buf0 + expand_spec(self.raw_line@, &self.config.tab_cfg));
     //@after <<<self.painter.paint_zero_line(&line, state.clone());>>>| assert(/* @C01,C02,C11:hhl.order.step */ all_lines(&self.painter) =~= mid.push(line@));
     //@after <<<self.painter.output_buffer.push('\n');>>>| assert(/* @C01,C02,C11:hhl.order.step */ all_lines(&self.painter) =~= mid.push(vis(expand_spec(self.raw_line@, &self.config.tab_cfg))));
+    //@before <<<if !self.test_hunk_line() {>>>| let ghost mut fell_through = false;
+    //@before <<<self.painter.output_buffer.push('\n');>>>| proof { fell_through = true; }
+    //@before <<<self.painter.emit()?; Ok(true)>>>| assert(/* @C01:a.line.of.a.hunk.that.is.no.hunk.line.leaves.the.marker.columns.of.the.hunk.alone */ fell_through ==> self.state == State::HunkZero(hunk_dt(old(self).state), None));
     //@before <<<Ok(true)>>>| assert(/* @C01,C02,C11:hhl.order.step */ all_lines(&self.painter).drop_last() =~= all_lines(&old(self).painter));
 }
 
